@@ -17,7 +17,6 @@ sys.path.insert(0, os.environ.get('VERIF_REPO', '/repo'))
 def main():
     from sim import c06, core
     core.assert_repo_import()
-    sys.setrecursionlimit(20000)
     items = json.load(sys.stdin)
     # the library prints on one error path (CTLS/model_checking.py print(e));
     # keep the result channel clean
